@@ -23,7 +23,7 @@ SPEC = {
              "operator yields at least one element; distinct = distinct case description."),
     "shards": {"quick": 16, "thorough": 16},
     "min_counts": {"quick": {"evaluations": 2000, "oracle_evals": 20000, "yields_checked": 5000,
-                             "fresh_defaults_checked": 1000, "identity_checked": 5000, "operands_with_saved_position": 300},
+                             "fresh_defaults_checked": 1000, "identity_checked": 5000, "operands_with_saved_position": 300, "pairs_with_different_defaults": 200},
                    "thorough": {"evaluations": 20000, "oracle_evals": 200000}},
     "assumptions": [
         "ordered/unique fibers only; integer or tuple coordinates",
@@ -88,9 +88,11 @@ def _random_case(rng):
     default = rng.choice([0, 0, 0, 7])
     if r < 0.30:
         ext = rng.randint(1, 12)
-        return {"kind": "pair", "a": gen.rand_leaf_spec(rng, ext, rng.random(), 0.15, default),
-                "b": gen.rand_leaf_spec(rng, ext, rng.random(), 0.15, default),
-                "setting": rng.choice(["free", "tensor"]), "default": default}
+        # the two operands may come from ranks with different defaults: each side's emptiness is judged by its own
+        db = default if rng.random() < 0.6 else rng.choice([d for d in (0, 7, -1, 2) if d != default])
+        return {"kind": "pair", "a": gen.rand_leaf_spec(rng, ext, rng.random(), 0.15, default, values=[1, 2, 3, 0, 7, -1, 5]),
+                "b": gen.rand_leaf_spec(rng, ext, rng.random(), 0.15, db, values=[1, 2, 3, 0, 7, -1, 5]),
+                "setting": rng.choice(["free", "tensor"]), "default": default, "default_b": db}
     if r < 0.45:
         e = [rng.randint(1, 5), rng.randint(1, 4)]
         return {"kind": "pair", "a": gen.rand_tree_spec(rng, e, 0.6, 0.5, default),
@@ -156,12 +158,13 @@ def _present(f, default, fmt):
 def _build(case):
     """-> (a, b, owners, fmts)"""
     d = case["default"]
+    db = case.get("default_b", d)
     st = case["setting"]
     if st == "free":
-        return gen.fiber_from_spec(case["a"], d), gen.fiber_from_spec(case["b"], d), [], ("C", "C")
+        return gen.fiber_from_spec(case["a"], d), gen.fiber_from_spec(case["b"], db), [], ("C", "C")
     if st == "tensor":
         ta = gen.tensor_from_spec(case["a"], ["K"], default=d)
-        tb = gen.tensor_from_spec(case["b"], ["K"], default=d)
+        tb = gen.tensor_from_spec(case["b"], ["K"], default=db)
         return ta.getRoot(), tb.getRoot(), [ta, tb], ("C", "C")
     if st == "interior":
         ta = gen.tensor_from_spec(case["a"], ["M", "K"], default=d)
@@ -194,17 +197,18 @@ class _Fresh:
     def __init__(self, mon, ids, default, what):
         self.mon, self.ids, self.default, self.what, self.seen = mon, ids, default, what, {}
 
-    def check(self, p, side_default_is_fiber):
+    def check(self, p, side_default_is_fiber, default=None):
         mon = self.mon
+        dflt = self.default if default is None else default
         mon.count("fresh_defaults_checked")
         if side_default_is_fiber:
             ok = isinstance(p, Fiber) and len(p.coords) == 0
             mon.check(ok, f"{self.what}:absent-default-not-empty-fiber",
                       f"absent side of {self.what} delivered {type(p).__name__} instead of an empty fiber")
         else:
-            ok = isinstance(p, Payload) and not isinstance(p.value, (Payload, Fiber)) and p.value == self.default
+            ok = isinstance(p, Payload) and not isinstance(p.value, (Payload, Fiber)) and p.value == dflt
             mon.check(ok, f"{self.what}:absent-default-wrong-value",
-                      f"absent side of {self.what} delivered {p!r}, expected a box holding the default {self.default!r}")
+                      f"absent side of {self.what} delivered {p!r}, expected a box holding the default {dflt!r}")
         mon.check(id(p) not in self.ids, f"{self.what}:absent-default-aliases-operand",
                   f"absent-side default of {self.what} is an object stored in an operand")
         mon.check(id(p) not in self.seen, f"{self.what}:absent-default-shared",
@@ -249,7 +253,10 @@ def _run_pair(case, mon):
     ids = {}
     for x in watched:
         ids.update(idset(x))
-    pa, pb = _present(a, d, fa), _present(b, d, fb)
+    db = case.get("default_b", d)
+    if db != d:
+        mon.count("pairs_with_different_defaults")
+    pa, pb = _present(a, d, fa), _present(b, db, fb)
     any_yield = False
     for op in OPS:
         if op == "-" and fa == "U":
@@ -294,13 +301,13 @@ def _run_pair(case, mon):
                     mask, pa_, pb_ = v
                     want = ("A" if ina else "") + ("B" if inb else "")
                     mon.check(unbox(mask) == want, f"{what}:mask", f"{what} at {c}: mask {mask!r} expected {want!r}")
-                for side, got_p, present, obj in (("a", pa_, ina, oa), ("b", pb_, inb, ob)):
+                for side, got_p, present, obj, sd in (("a", pa_, ina, oa, d), ("b", pb_, inb, ob, db)):
                     if present and obj is not None:
                         mon.count("identity_checked")
                         mon.check(got_p is obj, f"{what}:payload-identity",
                                   f"{what} at {c}: {side}-side payload is not the operand's stored object")
                     else:
-                        fresh.check(got_p, interior)
+                        fresh.check(got_p, interior, sd)
     after = [snap(x) for x in watched]
     for x, s0, s1 in zip(watched, before, after):
         if s0 != s1:
